@@ -199,8 +199,17 @@ def check(rep, an, tier):
             if ev.d["attr"] in resets:
                 continue
             v = ev.d["val"].flat()
-            rep.check("R-FLOW", f"self.{ev.d['attr']} ← the given {ev.d['attr']}", ev.d["attr"] in v.data, where=ev.loc, construct=ev.text(),
-                      entry=entry, config=label)
+            from ..values import plain_dep
+            okp, how = plain_dep(v.data, ev.d["attr"])
+            rep.check("R-FLOW", f"self.{ev.d['attr']} ← the given {ev.d['attr']}", okp, where=ev.loc, construct=ev.text(),
+                      entry=entry, config=label,
+                      msg=(f"the stored bound is a clamped / rounded image of the given one ({', '.join(how)})" if how else
+                           "the stored bound does not depend on the given one"))
+            old_ = sorted(o for o in v.data if o.split("|")[0] in ("self.lb", "self.ub"))
+            rep.check("R-NOFLOW", f"the registered {ev.d['attr']} does not depend on the previously registered bounds", not old_, where=ev.loc,
+                      construct=ev.text(), entry=entry, config=label,
+                      msg=f"the stored bound is computed from {old_} — the bounds registered EARLIER: what is stored (and every later answer) "
+                          f"depends on the registration history and on the order in which lb and ub are registered")
         rebinds(rep, res, entry, label)
     # ------------------------------------------------------------ fits: write only in internal mode
     bsv = lsq_inputs(bs=1)["batch_size"]
